@@ -55,7 +55,7 @@ from ckl.nodes import (
 
 
 def check_redefine_keyword(token):
-    if token.type == "keyword":
+    if token.type == "keyword" or token.value == "NULL":
         raise CklSyntaxError(
             f"Cannot redefine keyword '{token}'", token.pos
         )
